@@ -1,6 +1,6 @@
 #!/usr/bin/env python3
 """Generates MANIFEST.json from the table below (kept in one place so that it is always valid)."""
-import json, subprocess
+import json, os, subprocess
 CHECKS = {
  "C07": dict(text="Every text of <=5 (quick) / <=6-7 (thorough) symbols over a 15-symbol alphabet and every byte prefix and single-byte deletion of a corpus is parsed by the real parse.Parse under a cooperative scheduler and a step horizon: termination, no panic, error xor tree, position inside the input, and no goroutine left blocked or runnable are checked on every one of them.",
              note="Trusted: the instrumenter's rewrite of go/send/recv/close, the channel model of verifrt (follows cap(ch)), the step horizon as termination oracle. Inputs outside the alphabet/bound are not covered.",
@@ -66,27 +66,7 @@ CHECKS["C20"]=dict(text="Every config placement (3 values x 4 positions) on 4 sk
 NOT_YET = {}
 
 # additions made after the seeding rounds (see DESIGN.md 9.7/9.8)
-ADD = {
- "C02": " Each expression is compiled once and the same machine is run on the 4 context positions in turn; the last run is also compared, raw requests included, with a machine compiled for that run alone. Operands include ones whose string-value is empty (the empty literal, an empty function result, paths to a leaf whose value is empty).",
- "C03": " Unary minus is repeated 0-3 times per operand; white-space variants also with everything removed except one boundary, over one-character names, one-digit numbers and literals with a leading blank. The fully parenthesised form brackets unions, so unary minus versus '|' is decided. Chains over operands that end in an abbreviated step, a wildcard, a predicate or a name test spelled like an operator.",
- "C04": " The alphabets contain non-XPath white space (NBSP, FF) and non-ASCII identifiers; prefixed names also occur as three tokens in the mutation corpus; disagreements that need two known deviations at once are attributed to both. Byte sweep: every byte value and every two-byte sequence starting with a UTF-8 lead byte in 11 expression and 5 path frames (bare, in a name, in either literal, behind multi-byte characters). Tokens include a lone single and double quote.",
- "C05": " The alphabet contains '%', '%s' and LF. Constructors include expr with custom functions and path_eval with a user function checker (vouching for every name / for none); after every constructor and run no lock may be held (lock bookkeeping of the sync shim), and in the single-goroutine harness a lock that is not free is reported as a call that blocks for ever. Every machine is also run on a tree of value kinds (two leaf-lists of equal size, other sizes, empty, number, boolean, literal, absent).",
- "C06": " Run operations carry one of two context positions (different data), one machine has a '..'-rooted predicate operand, and the isolated reference compiles a fresh machine per run; the channel/select model of the scheduler is self-checked against Go's semantics on 8 toy programs at the start of every run. Function-table matrix: for each of the 25 table functions one compiled machine x every function called with 0-4 arguments compiled afterwards (machine must be unchanged), and all ordered pairs of those 125 compilations (outcome independent of the earlier one). Oracle (c): on a data tree that hands out the same datum objects on every request, after machine A has run machine B observes what it observes on a fresh tree (14x14 expressions over leaf-lists).",
- "C07": " When an execution is not a producer/consumer pair on one channel (a select, a second channel, a lock, a third thread) every schedule within the preemption bound is explored for that input; select statements are supported by instrumenter and scheduler. The corpus has one module per kind of statement-level error (revision order, duplicate date, cardinality, section order, bad date / identifier / key / range / length / integer / boolean / status, unknown keyword).",
- "C08": " Line breaks are LF or CRLF independently per line; the raw text of a string is also repeated later in the statement (comment, second piece); every string of <=5 symbols over {a, blank, \\\\, \\n, \\t, \\\"} is decoded. A tab follows indentation of every width around the quote column (blanks, or a tab and blanks).",
- "C09": " Argument probes include Unicode white space; for every ordered pair of argument kinds and every probe valid for the first and invalid for the second, a module with both statements (both orders) must be rejected. Unknown unprefixed keywords are also probed with a colon in the argument and with prefixed substatements. range and length arguments are generated from their grammar (parts b and b..b over 11 boundaries, alone and as first or second of two parts).",
- "C10": " The menu has a multi-line double-quoted argument whose value depends on the quote column; comment trivia include copies of that raw text and comments made of comment delimiters; every string of <=4 escape symbols is checked double- and single-quoted. The multi-line argument has continuation lines whose indentation is computed to end exactly in the text column, followed by a tab, two tabs and a blank. One line break of the multi-line argument is CRLF, the others LF.",
- "C11": " Further module sets: same-named clean and cyclic definitions across modules and sibling scopes, cycles through deep uses, defects in the second of two references, imports written only in a submodule, non-commuting deviations from unrelated modules; erroneous sets are also compiled with all features enabled. Include cycles must be errors, also among submodules that their module does not include (2-cycle, 3-cycle, self include, groupings using each other across the cycle).",
- "C12": " Further: nested uses below the top level of a grouping, groupings defined in nested and sibling scopes, augment-with-when and augment-with-nested-uses modifications, and two modules using one imported grouping with every pair of modifications in one compilation. Sibling sequences: every sequence of <=3 (thorough 4) statements over {uses of an empty grouping, uses of a grouping that only uses it, uses of a one-leaf grouping, container/list/case with uses inside, plain leaf} at 6 site kinds with the groupings in the module, an import or a submodule.",
- "C13": " Families: one typedef chain of depth 1-5 used by 2 or 3 leaves of one module with different restrictions, each leaf judged as if it were the only user. min/max spellings: a typedef (unrestricted, one range, two parts) x a leaf restriction with min and max in every position, also as parts of their own.",
- "C14": " Features are split over two modules in every dependency-closed way; deviate delete of each of three same-keyword statements; status on a uses/augment x own status of the introduced node. Every deviation case is repeated with an if-feature on the deviation target. Every ordered sequence of 2-4 deviate statements out of {not-supported, add, delete, replace} in one deviation.",
- "C15": " Further placements: a when written on a uses/augment (foreign, local, nested), a must added by a refine, a second must after a valid one; and pairs of statements (one of module a ending up in b, one written in b) in one compilation. 11 more invalid must/when forms and 8 more invalid path forms (non-NCName local parts behind a known prefix, unbalanced and dangling forms). Also expressions ending in a lone quote.",
- "C16": " Every decimal64 fraction-digits value 1..18; alternation and anchor patterns; every probe is validated on the type compiled alone and on the same type as one leaf of a module holding all types over a shared 3-level typedef chain. The custom error-message / app-tag is demanded for every rejected value that is lexically a number of the base type, whatever its magnitude. Derived-restriction family: typedef with or without own messages x optional middle typedef x 8 spellings of a derived restriction carrying error-message and error-app-tag; every rejection must carry the derived ones.",
- "C17": " Additionally every schema forest of the C18 generator (<=3 / <=4 nodes, leaf types in rotation) x every token path of <=4 / <=5 tokens; every path is validated three times on one compiled schema (incomplete allowed, strict, allowed). Every generated schema is run a second time with names that are unique among siblings only.",
- "C18": " Additionally every schema forest of <=3 nodes (quick: plus all 4-node schemas x small trees; thorough: <=4 nodes) generated from the grammar leaf/leaf-list/container/list/choice/case with all flag variants x every data tree up to the data bound. An extra pass runs the generated schemas with names shared between levels.",
- "C19": " Additionally every generated schema (C18 generator, <=3 / <=4 nodes) x every valid data tree x 3 encodings; identities of the same name in two modules; identityref XML inputs with explicit prefix bindings; strings with backslashes. Every generated schema is run a second time with names shared between levels (first node of every container named like the list keys); data trees of <=5 / <=6 nodes. Every generated tree is also run with empty strings as first key and plain values, and with every value extended by the characters the encodings escape.",
- "C20": " Additionally every generated schema (<=2 / <=3 nodes) with config false on 0, 1 (2) nodes; choices with defaults under lists, cases, nested lists and at the module top; config on key leaves; the pruning reference is alias-aware.",
-}
+ADD = json.load(open(os.path.join(os.path.dirname(os.path.abspath(__file__)), "check_additions.json")))
 for k, v in ADD.items():
     CHECKS[k]["text"] += v
 props=[json.loads(l) for l in open('/verif/properties.jsonl')]
